@@ -111,6 +111,11 @@ func runCase(res *vkit.Result, c Case) {
 	const rate = 200.0
 	rpsDur := startupDur + 300*time.Millisecond
 	switch c.Scenario {
+	case "free-short":
+		// per-instance profiles that end long before the startup profile does: early
+		// instances finish while later ones are still being started; that is not a reason
+		// to stop starting them
+		rpsDur = startupDur/5 + 5*time.Millisecond
 	case "shared-long":
 		perInstance = false
 		rpsDur = startupDur + 1500*time.Millisecond
@@ -251,14 +256,14 @@ func runCase(res *vkit.Result, c Case) {
 		fail("too-many", "%d instances started, profile holds %d tokens", S, total)
 	}
 	switch c.Scenario {
-	case "free", "shared-long":
+	case "free", "free-short", "shared-long":
 		if S != total {
 			fail("not-all-started", "%d instances started, profile holds %d tokens and nothing cut the start short", S, total)
 		}
 		if err != nil {
 			fail("run-error", "run ended with %v", err)
 		}
-		if c.Scenario == "free" {
+		if c.Scenario == "free" || c.Scenario == "free-short" {
 			if got, want := plan.ShotCount(), int64(S*perTokens); got != want {
 				fail("kept-firing", "%d instances with %d tokens each fired %d shots, want %d", S, perTokens, got, want)
 			}
@@ -287,16 +292,18 @@ var seeds = []Case{
 	{Startup: vkit.SchedSpec{Kind: "instance_step", A: 2, B: 8, N: 3, DurMs: 60}, Scenario: "free"},
 	{Startup: vkit.SchedSpec{Kind: "instance_step", A: 0, B: 4, N: 2, DurMs: 50}, Scenario: "shared-long"},
 	{Startup: vkit.SchedSpec{Kind: "once", N: 6}, Scenario: "free"},
+	{Startup: vkit.SchedSpec{Kind: "instance_step", A: 1, B: 4, N: 1, DurMs: 150}, Scenario: "free-short"},
+	{Startup: vkit.SchedSpec{Kind: "const", A: 20, DurMs: 400}, Scenario: "free-short"},
 	{Startup: vkit.SchedSpec{Kind: "const", A: 20, DurMs: 320}, Scenario: "free"},
 	{Startup: vkit.SchedSpec{Kind: "composite", Parts: []vkit.SchedSpec{{Kind: "once", N: 2}, {Kind: "const", A: 0, DurMs: 100}, {Kind: "once", N: 3}}}, Scenario: "free"},
 }
 
 func main() {
-	res := vkit.NewResult("mock pools with startup profiles once/const/instance_step/composites (≤ ~1.5 s, 1–30 tokens) × scenario {free: per-instance profile outliving the startup profile, unbounded ammo; shared-long; ammo exhausted early; shared profile ending before the startup profile; creation failure at instance k; cancel at a seeded instant}; distinct = distinct case descriptions; non-trivial = startup profile with ≥ 2 tokens")
+	res := vkit.NewResult("mock pools with startup profiles once/const/instance_step/composites (≤ ~1.5 s, 1–30 tokens) × scenario {free: per-instance profile outliving the startup profile, unbounded ammo; free-short: per-instance profiles ending long before the startup profile; shared-long; ammo exhausted early; shared profile ending before the startup profile; creation failure at instance k; cancel at a seeded instant}; distinct = distinct case descriptions; non-trivial = startup profile with ≥ 2 tokens")
 	rng := vkit.Rand("c12")
 	cases := append([]Case{}, seeds...)
 	n := vkit.N(200, 5000)
-	scen := []string{"free", "free", "shared-long", "ammo-early", "rps-early", "fail-k", "cancel"}
+	scen := []string{"free", "free-short", "free-short", "shared-long", "ammo-early", "rps-early", "fail-k", "cancel"}
 	for i := 0; i < n; i++ {
 		c := Case{Startup: genStartup(rng, 0), Scenario: scen[rng.Intn(len(scen))], Seed: rng.Int63()}
 		offs, dur := startupModel(c.Startup)
